@@ -254,9 +254,12 @@ def check_guards(ctx, rule_g="R4-guard-is-divisor", rule_u="R5-unguarded-divisor
             for ev in T.events.get((nm, iscsd), []):
                 if ev[0] != "divide": continue
                 _, a, b, wherev, out, node = ev
-                if id(node) in seen: continue
-                seen.add(id(node)); ng += 1
-                c = f"{GETATTR}[np.divide at '{' '.join(ast.unparse(node).split())[:50]}']"
+                # one quotient = one (site, divisor, guard): a shared helper's np.divide serves several cells
+                k_ = (id(node), repr(generic(b))[:300], repr(wherev)[:300])
+                if k_ in seen: continue
+                shared = any(k2[0] == id(node) for k2 in seen)
+                seen.add(k_); ng += 1
+                c = f"{GETATTR}[np.divide at '{' '.join(ast.unparse(node).split())[:50]}'{' for ' + nm if shared else ''}]"
                 w2 = f"speckit/analysis.py:{node.lineno}"
                 bx = to_x(generic(b)) if not is_opaque(b) else None
                 if bx is None:
